@@ -27,7 +27,7 @@ Matches(e, res) == \A f \in DOMAIN res : Has(e, f) /\ e[f] = res[f]
 \* judged on the real Len() (that Len() is right is C10's business)
 RetentionOK(e) ==
     /\ e.nodes <= e.len + 1 + e.open
-    /\ e.open = 0 => (e.nodes <= e.len + 1 /\ e.deleted = 0)
+    /\ e.open = 0 => (e.nodes <= e.len + 1 /\ e.deleted = 0 /\ e.stale = 0)
 
 Init == live = <<>> /\ cur = [i \in Iters |-> -1] /\ nextId = 1 /\ l = 1
 
